@@ -316,7 +316,35 @@ pub fn sets(ctx: &Ctx) -> Vec<CaseSet> {
     cfg.max_depth = 4;
     cfg.max_items = 5;
     let cfg = Arc::new(cfg);
-    vec![CaseSet::new(
+    vec![
+        // nesting around the recursion limit: both APIs must draw the line at the same place
+        CaseSet::new(
+            "near-limit-nesting",
+            ctx.size(600, 6_000),
+            Box::new(move |rep, rng, _| {
+                let units: &[(&str, &str)] = &[("'", ""), ("`", ""), (",", ""), (",@", ""), ("(", ")"), ("#(", ")"), ("[", "]"), ("(a . ", ")")];
+                let total = rng.range(118, 136);
+                let mut open = String::new();
+                let mut close = String::new();
+                let mode = rng.below(4);
+                for i in 0..total {
+                    let (o, c) = match mode {
+                        0 => units[rng.below(4)],
+                        1 => units[rng.below(units.len())],
+                        2 => units[4 + rng.below(4)],
+                        _ => if i + 3 < total { units[4 + rng.below(4)] } else { units[rng.below(4)] },
+                    };
+                    open.push_str(o);
+                    close.insert_str(0, c);
+                }
+                // several items: the APIs must also agree on what follows a rejected item
+                let text = format!("{}x{} y (z)", open, if rng.chance(1, 4) { String::new() } else { close });
+                let q = match rng.below(3) { 0 => Q::default_(), 1 => Q::elisp(), _ => Q::from_index(rng.below(N_Q)) };
+                rep.count("inputs:near-limit-nesting");
+                compare_apis(rep, text.as_bytes(), &q, "near-limit-nesting", rng);
+            }),
+        ),
+        CaseSet::new(
         "api-agreement-and-walk",
         ctx.size(120_000, 6_000_000),
         Box::new(move |rep, rng, _| {
